@@ -628,16 +628,18 @@ supersedes `…_partial`).  A step = translated `Poa::custom` (any clip penaltie
 `2^64 − 1`, `customTableC ≠ none` = no `i32` overflow): whenever the history returns `g`, then `g` is a non-empty
 well-formed DAG and extends `g0` (no label / edge removed, no total weight decreased).  Still missing: that the history
 *does* return (no panic of `alignment` / `add_alignment` on these lists: column tracking for `seq[i]`, weight `+ 1`
-overflow), node growth `≤ |query|` at source level (`ColsOK` of the source table), `global_banded` steps. -/
+overflow), `global_banded` steps.  Node growth: at most `|query|` nodes per step (`ColsOK` of the source table:
+column 0 holds nothing query-consuming, a `Yclip` never jumps to the right). -/
 theorem poa_history_source_acyclic_only_grows (g0 g : Poa.Model.G) (steps : List RbV.Thm.GenSrcPoaHistory.HS)
     (hne : g0.labels ≠ []) (hwf : ∀ e ∈ g0.es, e.1 < g0.labels.length ∧ e.2.1 < g0.labels.length)
     (hac : ∀ v, ¬ Reach (plain g0.es) v v)
     (hok : RbV.Thm.GenSrcPoaHistory.HistOK g0 steps)
     (h : RbV.Thm.GenSrcPoaHistory.srcHistory g0 steps = Rs.Res.ok g) :
     g.labels ≠ [] ∧ (∀ e ∈ g.es, e.1 < g.labels.length ∧ e.2.1 < g.labels.length) ∧
-    (∀ v, ¬ Reach (plain g.es) v v) ∧ Extends g0.labels g0.es g.labels g.es := by
-  obtain ⟨hd, hg⟩ := RbV.Thm.GenSrcPoaHistory.history_dag steps g0 g ⟨hne, hwf, hac⟩ hok h
-  exact ⟨hd.ne, hd.wf, hd.acyclic, hg.extends⟩
+    (∀ v, ¬ Reach (plain g.es) v v) ∧ Extends g0.labels g0.es g.labels g.es ∧
+    g.labels.length ≤ g0.labels.length + (steps.map fun s => s.2.2.length).sum := by
+  obtain ⟨hd, hg, hn⟩ := RbV.Thm.GenSrcPoaHistory.history_dag steps g0 g ⟨hne, hwf, hac⟩ hok h
+  exact ⟨hd.ne, hd.wf, hd.acyclic, hg.extends, hn⟩
 
 -- non-vacuity: a two-step history of translated steps (global, then local) from the chain `ACG` returns
 example : (match RbV.Thm.GenSrcPoaHistory.srcHistory (Poa.Model.chainG [65, 67, 71])
